@@ -17,6 +17,7 @@
 package vm
 
 import (
+	"bytes"
 	"crypto/sha256"
 	"errors"
 	"fmt"
@@ -105,6 +106,18 @@ func (c *AdminOP) RequiredGas(input []byte) uint64 {
 
 func (c *AdminOP)SetState(s StateDB){
 	c.state = s
+}
+
+// adminContractAddr is the genesis admin contract (core.AdminTo), which passes its msg.sender on.
+var adminContractAddr = common.HexToAddress("0x02000000")
+
+// RunFrom runs the request for a known caller: only the admin contract may speak for
+// another account, any other caller can only submit in its own name.
+func (c *AdminOP) RunFrom(caller common.Address, input []byte) ([]byte, error) {
+	if caller != adminContractAddr && (len(input) < 32+20 || !bytes.Equal(input[32:32+20], caller.Bytes())) {
+		return nil, fmt.Errorf("admin op sender is not the caller")
+	}
+	return c.Run(input)
 }
 
 func (c *AdminOP) Run(input []byte) ([]byte, error) {
